@@ -491,6 +491,9 @@ mut("C19", "r7-elastic-path-half-tangent", E + "Models/InElastic/_behavior.py", 
 same("C19", "r7-state-sum-np-add", E + "Models/InElastic/_behavior.py", "        layout = self.__layout\n        nz = layout.n\n        z_e_pg = zOld_e_pg + u_e_pg[..., :nz]\n\n        eel_e_pg", "        layout = self.__layout\n        nz = layout.n\n        z_e_pg = np.add(zOld_e_pg, u_e_pg[..., :nz])\n\n        eel_e_pg")
 mut("C19", "r7-residual-R-at-increment", E + "Models/InElastic/_behavior.py", "            alpha_e_pg = z_e_pg[..., A][..., 0]\n            dG_e_pg = u_e_pg[..., nz]\n", "            alpha_e_pg = u_e_pg[..., A][..., 0]\n            dG_e_pg = u_e_pg[..., nz]\n", "__Residual")
 
+mut("C08", "r7-solid-no-orientation", E + "FEM/_group_elem.py", "            n_f[inward_f] *= -1\n", "            pass\n", "Get_pointsInElem")
+same("C08", "r7-solid-orientation-where", E + "FEM/_group_elem.py", "            n_f[inward_f] *= -1\n", "            n_f = np.where(inward_f[:, np.newaxis], -n_f, n_f)\n")
+
 
 def apply_edit(root, e):
     if e.get("patch"):
